@@ -146,9 +146,9 @@ def forbidden_hits():
     return hits
 
 
-def audit_axioms(module, theorems, log):
+def audit_axioms(module, theorems, log, extra_imports=()):
     """#print axioms for each theorem; returns dict thm -> list of axioms (or None if missing)."""
-    src = "import %s\n" % module + "".join("#print axioms %s\n" % t for t in theorems)
+    src = "".join("import %s\n" % m for m in [module] + list(extra_imports)) + "".join("#print axioms %s\n" % t for t in theorems)
     path = os.path.join(LEAN, ".audit_%s.lean" % module.replace(".", "_"))
     open(path, "w").write(src)
     p = sh(["lake", "env", "lean", path], cwd=LEAN, check=False)
@@ -173,10 +173,18 @@ class Pair:
         self.pqh = os.path.join(BIN, "pqh")
         self.drv = os.path.join(LEAN, ".lake", "build", "bin", "pqdriver")
 
-    def _run(self, exe, lines, timeout=1800, env=None):
+    def _run(self, exe, lines, timeout=600, env=None):
         data = "".join(l + "\n" for l in lines)
-        p = subprocess.run([exe], input=data, stdout=subprocess.PIPE, stderr=subprocess.PIPE, text=True,
-                           timeout=timeout, env=env)
+        try:
+            p = subprocess.run(["/bin/sh", "-c", "ulimit -v 25165824; exec \"$0\"", exe], input=data, stdout=subprocess.PIPE,
+                               stderr=subprocess.PIPE, text=True, timeout=timeout, env=env)
+        except subprocess.TimeoutExpired as e:
+            out = (e.stdout or b"")
+            out = out.decode() if isinstance(out, bytes) else out
+            out = out.split("\n")
+            if out and out[-1] == "":
+                out.pop()
+            return -9, out, "timeout"
         out = p.stdout.split("\n")
         if out and out[-1] == "":
             out.pop()
@@ -284,7 +292,7 @@ class Check:
         return 1 if seen else 0
 
 
-def proof_stage(chk, module, theorems, extra_targets=()):
+def proof_stage(chk, module, theorems, extra_targets=(), audit_imports=()):
     """Build the property's theorem module against the regenerated Gen files and audit axioms.
     Returns dict(obligations, discharged, axioms, ok, failed, build_output)."""
     ok, out = lake_build([module, "pqdriver"] + list(extra_targets), chk.log)
@@ -297,7 +305,7 @@ def proof_stage(chk, module, theorems, extra_targets=()):
         # which theorems are still provable is not known: count none as discharged
         res["failed"] = theorems
         return res
-    ax = audit_axioms(module, theorems, chk.log)
+    ax = audit_axioms(module, theorems, chk.log, audit_imports)
     for t, a in ax.items():
         if a is None:
             res["failed"].append(t)
